@@ -154,7 +154,8 @@ func units() []unit {
 		}
 	}
 	// Doerner: the only shape
-	for _, ids := range []string{"short", "long"} {
+	// ("mixedlen": the Receiver's identifier sorts AFTER the Sender's - roles and sorted order disagree)
+	for _, ids := range []string{"short", "long", "mixedlen"} {
 		for _, mat := range materials {
 			l = append(l, unit{"doerner", ids, 2, 1, mat, []int{0, 1}, "sign", allMsgs, both})
 		}
@@ -316,6 +317,21 @@ func evaluate(c scase, verbose bool) []finding {
 		}
 		if verbose {
 			fmt.Printf("  %q: %T %x\n", id, r, b)
+		}
+	}
+	// a retry: the same online session once more with the SAME in-memory presignature objects and digest (the first
+	// attempt may have been abandoned half-way; producing a signature share must not use the presignature up)
+	if u.Proto == "cmp" && variant == "presign-online" && len(fs) == 0 {
+		o3, f3 := run(variant, pre)
+		if f3 != nil {
+			fs = append(fs, incomplete("second online session with the same presignature objects: ", f3)...)
+		} else {
+			for _, id := range signers {
+				if err := oracle.CheckSignature(o3.Results[id], ks.Pub, msg); err != nil {
+					b, _ := oracle.SigBytes(o3.Results[id])
+					fs = append(fs, mk("invalid-signature", "second-use-of-the-presignature-objects", fmt.Sprintf("%s: second online session with the same presignature objects: signature %x returned at %q: %v", where, b, id, err))...)
+				}
+			}
 		}
 	}
 	// the online phase once more with key material the presignature was NOT made for: every party holds the
